@@ -269,6 +269,25 @@ def gen_neigh(rng, n, tier):
         W, H = c['W'], c['H']
         step = 10 if k % 2 == 1 else 4
         c['queries'] = [[[rng.randint(0, W * step) / float(step), rng.randint(0, H * step) / float(step)], rng.choice([0, 0.25, 0.5, 1, 1.3, 2, 3.75])] for _ in range(6)]
+        if rng.random() < 0.5:
+            # a short feature inside one cell and queries placed diagonally from it, just inside the distance asked: the feature sits in a far corner cell of the block searched
+            x = rng.randint(1, W * step - 2) / float(step); y = rng.randint(1, H * step - 2) / float(step)
+            c['tracks'].append([[x, y], [x + 1.0 / step, y]])
+            for _ in range(12):
+                d = rng.choice([1.3, 1.5, 2, 3, 3.75, 2.9, 1.45, 2.9 * min(c['res']), 2.95 * max(c['res']), 5.9 * min(c['res']), 6.9 * min(c['res'])])
+                a = math.floor(d / math.sqrt(2) * 0.999 * step) / float(step)
+                qx = x + rng.choice([-1, 1]) * a; qy = y + rng.choice([-1, 1]) * a
+                if 0 <= qx <= W and 0 <= qy <= H:
+                    c['queries'].append([[qx, qy], d])
+        if c['margin'] == 0 and c['res'][0] == c['res'][1] and rng.random() < 0.6:
+            # the same with the query near the far corner of its cell and the feature 2.1 cells away on both axes: three cells apart, closer than 3 cell sides
+            cell = c['res'][0]
+            i = rng.randint(0, max(0, int(W / cell) - 4)); j = rng.randint(0, max(0, int(H / cell) - 4))
+            qx, qy = (i + 0.9) * cell, (j + 0.9) * cell
+            fx, fy = qx + 2.1 * cell, qy + 2.1 * cell
+            if fx + 0.05 * cell <= W and fy <= H:
+                c['tracks'].append([[fx, fy], [fx + 0.05 * cell, fy]])
+                c['queries'].append([[qx, qy], 2.985 * cell])
         out.append(c)
     return out
 
